@@ -15,6 +15,7 @@ CONSTANTS
   MaxFaults = 0
   Concurrent = FALSE
   WithRejects = TRUE
+  ExportOneIn = 1
 INVARIANTS NoViolation CacheCounterExact ChunksAbut DurableIsPrefix Export
 VIEW View
 ALIAS Alias
